@@ -5,8 +5,8 @@ C02, unconditional form — the hypothesis `Accepted` of the bulk theorems is di
 refused as too old when its turn comes.  Here that is PROVED for the batches the actor applies:
 they are applied in ascending stamp order (`sort_by_key`), every element passed `will_apply` when
 the request started, and the safe cut-offs of an actor's set are exact (`SafeExact`, an invariant of
-every request handler).  What remains are the premises of the property itself: pairwise distinct
-ids inside one bulk request (D13 otherwise) and stamps that are valid clock outputs.
+every request handler).  What remains is that stamps are valid clock outputs; a bulk request may
+name a document several times (the handler keeps the newest entry, fix D13).
 -/
 import Datacake.Props.C02
 import Datacake.Lemmas.SafeExact
@@ -14,12 +14,13 @@ import Datacake.Lemmas.SafeExact
 namespace Datacake.C02
 open Datacake.Lww Datacake.OrSwot Datacake.Storage Datacake.Keyspace
 
-/-- The premises of the property for one request: distinct ids in a bulk request, valid stamps. -/
+/-- The premise of the property for one request: valid stamps.  (Until fix D13 a bulk request also
+had to name every document at most once.) -/
 def ReqValid : Req → Prop
   | .set _ d _ => ValidStamp d.2.1
   | .del _ _ ts _ => ValidStamp ts
-  | .mset _ docs _ => NoDupIds docs ∧ ∀ d ∈ docs, ValidStamp d.2.1
-  | .mdel _ docs _ => NoDupIds docs ∧ ∀ d ∈ docs, ValidStamp d.2
+  | .mset _ docs _ => ∀ d ∈ docs, ValidStamp d.2.1
+  | .mdel _ docs _ => ∀ d ∈ docs, ValidStamp d.2
   | .purge _ => True
 
 /-- Agreement together with the bookkeeping invariants that make it self-sustaining. -/
@@ -45,7 +46,7 @@ theorem safeExact_applyAll (F : Nat) : ∀ (ops : List SrcOp) (s : OrSwot), Safe
     obtain ⟨he', hg'⟩ := safeExact_applyOp F s o he hg (hv o List.mem_cons_self)
     exact ih _ he' hg' (fun o' ho' => hv o' (List.mem_cons_of_mem _ ho'))
 
-/-- The hypothesis of `agree_onMultiSet` / `agree_onMultiDel`, proved. -/
+/-- The hypothesis of `agree_onMultiSetCore` / `agree_onMultiDelCore`, proved. -/
 theorem accepted_batch (F : Nat) (s : OrSwot) (src : Nat) (isDel : Bool) (l : List (Nat × Nat))
     (he : SafeExact F s) (hg : GoodMaxs s) (hsorted : l.Pairwise (fun a b => a.2 ≤ b.2))
     (hok : ∀ e ∈ l, ValidStamp e.2 ∧ willApply s e.1 e.2 = true) :
@@ -58,6 +59,76 @@ theorem accepted_batch (F : Nat) (s : OrSwot) (src : Nat) (isDel : Bool) (l : Li
     unfold toOps at ho
     obtain ⟨e, hel, rfl⟩ := List.mem_map.1 ho
     exact ⟨(hok e hel).1, willApply_notBefore s e.1 e.2 (hok e hel).2⟩
+
+theorem good_onMultiSetCore (F : Nat) (n : Node) (src : Nat) (docs : List Doc) (w : Option (List Nat))
+    (h : Good F n) (hnd : NoDupIds docs) (hval : ∀ d ∈ docs, ValidStamp d.2.1) :
+    Good F (onMultiSetCore F n src docs w).1 := by
+  obtain ⟨ha, he, hg⟩ := h
+  have hvalid : ∀ e ∈ (docs.filter (fun d => willApply n.set d.1 d.2.1)).map (fun d => (d.1, d.2.1)),
+      ValidStamp e.2 ∧ willApply n.set e.1 e.2 = true := by
+    intro e he'
+    obtain ⟨d, hd, rfl⟩ := List.mem_map.1 he'
+    obtain ⟨hd1, hd2⟩ := List.mem_filter.1 hd
+    exact ⟨hval d hd1, by simpa using hd2⟩
+  suffices hk : SafeExact F (onMultiSetCore F n src docs w).1.set ∧ GoodMaxs (onMultiSetCore F n src docs w).1.set from
+    ⟨agree_onMultiSetCore F n src docs w ha hnd
+      (fun l hl _ hs => accepted_batch F n.set src false l he hg hs (fun e hel => hvalid e (hl e hel))), hk.1, hk.2⟩
+  have hent : ∀ e ∈ sortByTs ((docs.filter (fun d => willApply n.set d.1 d.2.1)).map (fun d => (d.1, d.2.1))),
+      ValidStamp e.2 := fun e hel => (hvalid e ((sortByTs_perm _).mem_iff.1 hel)).1
+  simp only [onMultiSetCore]
+  cases w with
+  | none =>
+    simp only
+    rw [fold_insert_eq]
+    apply safeExact_applyAll F _ n.set he hg
+    intro o ho
+    unfold toOps at ho
+    obtain ⟨e, hel, rfl⟩ := List.mem_map.1 ho
+    exact hent e hel
+  | some idxs =>
+    simp only
+    rw [fold_insert_eq]
+    apply safeExact_applyAll F _ n.set he hg
+    intro o ho
+    unfold toOps at ho
+    obtain ⟨e, hel, rfl⟩ := List.mem_map.1 ho
+    exact hent e (List.mem_filter.1 hel).1
+
+theorem good_onMultiDelCore (F : Nat) (n : Node) (src : Nat) (docs : List (Nat × Nat)) (w : Option (List Nat))
+    (h : Good F n) (hnd : NoDupIds docs) (hval : ∀ d ∈ docs, ValidStamp d.2) :
+    Good F (onMultiDelCore F n src docs w).1 := by
+  obtain ⟨ha, he, hg⟩ := h
+  have hvalid : ∀ e ∈ (docs.filter (fun d => willApply n.set d.1 d.2)).map (fun d => (d.1, d.2)),
+      ValidStamp e.2 ∧ willApply n.set e.1 e.2 = true := by
+    intro e he'
+    obtain ⟨d, hd, rfl⟩ := List.mem_map.1 he'
+    obtain ⟨hd1, hd2⟩ := List.mem_filter.1 hd
+    exact ⟨hval d hd1, by simpa using hd2⟩
+  suffices hk : SafeExact F (onMultiDelCore F n src docs w).1.set ∧ GoodMaxs (onMultiDelCore F n src docs w).1.set from
+    ⟨agree_onMultiDelCore F n src docs w ha hnd
+      (fun l hl _ hs => accepted_batch F n.set src true l he hg hs (fun e hel => hvalid e (hl e hel))), hk.1, hk.2⟩
+  have hent : ∀ e ∈ sortByTs (docs.filter (fun d => willApply n.set d.1 d.2)), ValidStamp e.2 := by
+    intro e hel
+    have := (sortByTs_perm _).mem_iff.1 hel
+    exact hval e (List.mem_filter.1 this).1
+  simp only [onMultiDelCore]
+  cases w with
+  | none =>
+    simp only
+    rw [fold_delete_eq]
+    apply safeExact_applyAll F _ n.set he hg
+    intro o ho
+    unfold toOps at ho
+    obtain ⟨e, hel, rfl⟩ := List.mem_map.1 ho
+    exact hent e hel
+  | some idxs =>
+    simp only
+    rw [fold_delete_eq]
+    apply safeExact_applyAll F _ n.set he hg
+    intro o ho
+    unfold toOps at ho
+    obtain ⟨e, hel, rfl⟩ := List.mem_map.1 ho
+    exact hent e (List.mem_filter.1 hel).1
 
 theorem good_handle (F : Nat) (n : Node) (r : Req) (h : Good F n) (hv : ReqValid r) :
     Good F (handle F n r) := by
@@ -82,69 +153,11 @@ theorem good_handle (F : Nat) (n : Node) (r : Req) (h : Good F n) (hv : ReqValid
       · exact ⟨he, hg⟩
       · exact safeExact_applyOp F n.set ⟨src, ⟨id, ts, true⟩⟩ he hg hv
   | mset src docs w =>
-    obtain ⟨hnd, hval⟩ := hv
-    have hvalid : ∀ e ∈ (docs.filter (fun d => willApply n.set d.1 d.2.1)).map (fun d => (d.1, d.2.1)),
-        ValidStamp e.2 ∧ willApply n.set e.1 e.2 = true := by
-      intro e he'
-      obtain ⟨d, hd, rfl⟩ := List.mem_map.1 he'
-      obtain ⟨hd1, hd2⟩ := List.mem_filter.1 hd
-      exact ⟨hval d hd1, by simpa using hd2⟩
-    suffices hk : SafeExact F (handle F n (.mset src docs w)).set ∧ GoodMaxs (handle F n (.mset src docs w)).set from
-      ⟨agree_onMultiSet F n src docs w ha hnd
-        (fun l hl _ hs => accepted_batch F n.set src false l he hg hs (fun e hel => hvalid e (hl e hel))), hk.1, hk.2⟩
-    have hent : ∀ e ∈ sortByTs ((docs.filter (fun d => willApply n.set d.1 d.2.1)).map (fun d => (d.1, d.2.1))),
-        ValidStamp e.2 := fun e hel => (hvalid e ((sortByTs_perm _).mem_iff.1 hel)).1
-    simp only [handle, onMultiSet]
-    cases w with
-    | none =>
-      simp only
-      rw [fold_insert_eq]
-      apply safeExact_applyAll F _ n.set he hg
-      intro o ho
-      unfold toOps at ho
-      obtain ⟨e, hel, rfl⟩ := List.mem_map.1 ho
-      exact hent e hel
-    | some idxs =>
-      simp only
-      rw [fold_insert_eq]
-      apply safeExact_applyAll F _ n.set he hg
-      intro o ho
-      unfold toOps at ho
-      obtain ⟨e, hel, rfl⟩ := List.mem_map.1 ho
-      exact hent e (List.mem_filter.1 hel).1
+    exact good_onMultiSetCore F n src _ w ⟨ha, he, hg⟩ (newest_nodup _ docs)
+      (fun d hd => hv d (newest_mem _ docs d hd))
   | mdel src docs w =>
-    obtain ⟨hnd, hval⟩ := hv
-    have hvalid : ∀ e ∈ (docs.filter (fun d => willApply n.set d.1 d.2)).map (fun d => (d.1, d.2)),
-        ValidStamp e.2 ∧ willApply n.set e.1 e.2 = true := by
-      intro e he'
-      obtain ⟨d, hd, rfl⟩ := List.mem_map.1 he'
-      obtain ⟨hd1, hd2⟩ := List.mem_filter.1 hd
-      exact ⟨hval d hd1, by simpa using hd2⟩
-    suffices hk : SafeExact F (handle F n (.mdel src docs w)).set ∧ GoodMaxs (handle F n (.mdel src docs w)).set from
-      ⟨agree_onMultiDel F n src docs w ha hnd
-        (fun l hl _ hs => accepted_batch F n.set src true l he hg hs (fun e hel => hvalid e (hl e hel))), hk.1, hk.2⟩
-    have hent : ∀ e ∈ sortByTs (docs.filter (fun d => willApply n.set d.1 d.2)), ValidStamp e.2 := by
-      intro e hel
-      have := (sortByTs_perm _).mem_iff.1 hel
-      exact hval e (List.mem_filter.1 this).1
-    simp only [handle, onMultiDel]
-    cases w with
-    | none =>
-      simp only
-      rw [fold_delete_eq]
-      apply safeExact_applyAll F _ n.set he hg
-      intro o ho
-      unfold toOps at ho
-      obtain ⟨e, hel, rfl⟩ := List.mem_map.1 ho
-      exact hent e hel
-    | some idxs =>
-      simp only
-      rw [fold_delete_eq]
-      apply safeExact_applyAll F _ n.set he hg
-      intro o ho
-      unfold toOps at ho
-      obtain ⟨e, hel, rfl⟩ := List.mem_map.1 ho
-      exact hent e (List.mem_filter.1 hel).1
+    exact good_onMultiDelCore F n src _ w ⟨ha, he, hg⟩ (newest_nodup _ docs)
+      (fun d hd => hv d (newest_mem _ docs d hd))
   | purge rm =>
     suffices hk : SafeExact F (handle F n (.purge rm)).set ∧ GoodMaxs (handle F n (.purge rm)).set from
       ⟨agree_onPurge n rm ha, hk.1, hk.2⟩
@@ -159,8 +172,8 @@ def ReqsValid : List Req → Prop
 
 /-- **agree_reachable_exact**: after every completed request of every history — single or bulk,
 any stamps (any time span), origins and sources, in any arrival order, with storage failing at any
-of the modelled points — the set and the store of the node agree; the only premises are distinct
-ids inside one bulk request and valid stamps. -/
+of the modelled points, bulk requests naming documents any number of times — the set and the store
+of the node agree; the only premise is that stamps are valid clock outputs. -/
 theorem agree_reachable_exact (F : Nat) (reqs : List Req) (n : Node) (h : Good F n)
     (hv : ReqsValid reqs) : Good F (reqs.foldl (handle F) n) := by
   induction reqs generalizing n with
